@@ -503,6 +503,11 @@ class Interp:
                 return z3.BoolVal(k in container.d)
             if isinstance(item, VStr):
                 return z3.Or([item.t == z3.StringVal(c) for c in container.d if isinstance(c, str)] or [z3.BoolVal(False)])
+        if isinstance(container, VObj) and container.tag == 'fieldsdict':
+            k = item.concrete() if isinstance(item, VStr) else None
+            if k is None:
+                raise Unsupported('symbolic key in __dict__')
+            return z3.BoolVal(k in container.fields['of'].fields)
         if isinstance(container, VObj) and getattr(container, 'tag', None) == 'symset':
             return self.B.symset_contains(self, container, item)
         raise Unsupported(f'in on {container!r}')
@@ -548,6 +553,18 @@ class Interp:
         f = self.eval(node.func, env)
         if isinstance(f, VClass) and issubclass(f.pycls, BaseException):
             return VExc(f.pycls)     # message argument dropped (DROPS item 4)
+        if isinstance(f, VClass) and f.pycls is super and not node.args:
+            e = env
+            while e is not None and getattr(e, 'pyfunc', None) is None:
+                e = e.parent
+            if e is None:
+                raise Unsupported('zero-argument super() outside a method')
+            pf = e.pyfunc
+            owner = pf.__globals__[pf.__qualname__.split('.')[0]]
+            first = e.vars[e.func_node.args.args[0].arg]
+            o = VObj(object, tag='super')
+            o.fields = {'cls': VClass(owner), 'obj': first}
+            return o
         if isinstance(f, VFunc) and f.kind == 'builtin' and f.name == 'warn':
             return NONE              # warnings.warn is a no-op (A-warn)
         args = []
@@ -590,6 +607,12 @@ class Interp:
         if isinstance(v, VObj):
             if attr in v.fields:
                 return v.fields[attr]
+            if v.tag == 'super':
+                return self.super_attr(v, attr)
+            if attr == '__dict__':
+                d = VObj(object, tag='fieldsdict')
+                d.fields = {'of': v}
+                return d
             if v.tag in ('recorder', 'symlist', 'symdict', 'symset'):
                 return VFunc('builtin', name=f'method:{attr}', obj=None, self_=v)
             return self.class_attr(v, v.pycls, attr)
@@ -625,6 +648,27 @@ class Interp:
         if isinstance(v, VNone):
             self.raise_(AttributeError)
         raise Unsupported(f'attribute {attr} of {v!r}')
+
+    def super_attr(self, sup, attr):
+        start, obj = sup.fields['cls'], sup.fields['obj']
+        if start is None:
+            raise Unsupported('zero-argument super()')
+        target = obj.pycls if isinstance(obj, (VClass, VObj)) else None
+        if target is None:
+            raise Unsupported('super() second argument')
+        mro = list(target.__mro__)
+        after = mro[mro.index(start.pycls) + 1:]
+        for k in after:
+            if attr in k.__dict__:
+                raw = k.__dict__[attr]
+                if k is object and attr == '__new__':
+                    return VFunc('builtin', name='object.__new__', obj=None)
+                if isinstance(raw, types.FunctionType):
+                    f = self.lift(raw)
+                    return VFunc('bound', self=obj, func=f) if isinstance(obj, VObj) else f
+                if k is object and attr == '__init__':
+                    return VFunc('builtin', name='object.__init__', obj=None)
+        self.raise_(AttributeError)
 
     def dtype_cls(self):
         import serif.typing
@@ -867,6 +911,10 @@ class Interp:
                     kwargs = {}
                 except KeyError:
                     pass
+        if qual == 'contracts.specs.hash_elem':
+            from .model import hash_f
+            a = args[0] if args else kwargs['x']
+            return VInt(hash_f(to_pyval(a)))
         if qual == 'contracts.specs.fold':
             from .loops import ghost_fold
             env0 = Env(f.globs, None, qual)
@@ -883,6 +931,7 @@ class Interp:
             return apply_contract(self, c, f, args, kwargs)
         env = Env(f.globs, f.closure_env, qual)
         env.func_node = f.node
+        env.pyfunc = f.pyfunc
         self.bind(f, env, args, kwargs)
         if self.call_depth > 40:
             raise Unsupported('call depth')
